@@ -228,6 +228,13 @@ func Point(id string, obj any) {
 	if x == nil {
 		return
 	}
+	if x.aborting.Load() {
+		// the execution is over and this thread is unwinding: a non-blocking operation met in a deferred
+		// function (a claim released, a counter decremented) is carried out, so that state the scenario's
+		// Setup does not know about is left as a completed run leaves it; blocking operations and spawns
+		// still unwind (park, Go)
+		return
+	}
 	x.park(t, func(t *thread) {
 		t.op, t.pid, t.obj, t.read, t.idle = opPoint, id, obj, false, false
 	})
@@ -241,6 +248,13 @@ func ReadPoint(id string, obj any) {
 	}
 	x, t := ctx(id)
 	if x == nil {
+		return
+	}
+	if x.aborting.Load() {
+		// the execution is over and this thread is unwinding: a non-blocking operation met in a deferred
+		// function (a claim released, a counter decremented) is carried out, so that state the scenario's
+		// Setup does not know about is left as a completed run leaves it; blocking operations and spawns
+		// still unwind (park, Go)
 		return
 	}
 	x.park(t, func(t *thread) {
